@@ -18,7 +18,9 @@ from typing import Optional
 
 from vivarium.core.registry import divider_registry, serializer_registry, updater_registry
 from vivarium.core.process import ParallelProcess, Process
-from vivarium.library.dict_utils import deep_compare, deep_merge, deep_merge_check, MULTI_UPDATE_KEY
+from vivarium.library.dict_utils import (
+    deep_compare, deep_copy_internal, deep_merge, deep_merge_check,
+    MULTI_UPDATE_KEY)
 from vivarium.library.topology import dict_to_paths
 from vivarium.core.types import Processes, Topology, State, Steps, Flow
 from vivarium.core.serialize import QuantitySerializer
@@ -551,9 +553,12 @@ class Store:
 
     def _apply_subschema_config(self, subschema):
         """Merge a new subschema config with the current subschema."""
+        # merge a copy: the nested dictionaries of ``subschema`` belong to
+        # the schema of the process that declared it, and later declarations
+        # by other processes must not be merged into that
         self.subschema = deep_merge(
             self.subschema,
-            subschema)
+            deep_copy_internal(subschema))
 
     def _apply_config(self, config, source=None):
         """
